@@ -2,9 +2,16 @@
    Case line:   h FILL STP OP OP ...
      FILL STP   scribble pattern written over the whole shared receive buffer after every
                 packet (byte i = FILL + i*STP mod 256)
-     OP         p:<framehex>           a received frame (Parse, handlers, Notify)
-                x:<key>,<key>,...      purge deleting these hosts (keys = address bytes, hex)
-                q                      table dump
+     OP (fields separated by ':'; loc = off.len; labs = loc+loc+.. ; '-' = absent / empty)
+       p:<frame>                                        frame seen by Parse + Notify only
+       d:<frame>:<type>:<cid loc>:<name loc>:<reqip loc>:<cls>:<res>:<yiaddr hex>:<lease ip hex>   DHCP (oracle: cls/res/yiaddr/lease ip)
+       r:<frame>:<slla off>:<plen.off,..>:<rdnss off,..>:<dnssl labs;labs>:<route plen.off>   router advertisement
+       n:<frame>:<qname labs>:<rr;rr..>                 DNS response; rr = a,labs,off | q,labs,off | c,labs,labs
+       m:<frame>:<T|F>:<id off>:<qnames labs;..>:<labs,off,n;..>:<model loc>          mDNS (l: = LLMNR)
+       b:<frame>:<name loc>                             NBNS node status response
+       s:<frame>:<model hex>:<manuf hex>:<os hex>       SSDP M-SEARCH (user-agent constants)
+       x:<key>,<key>,..    purge deleting these hosts   o:<key>   purge taking this host offline
+       u:<ip>              dhcp StartHunt               q         table dump
    Answer: column 1 = "T|F <transcript of the shared-buffer run>" (flag = equals the fresh-buffer run),
            column 2 = "T <transcript of the fresh-buffer run>" (what C10 demands),
            column 3 = known-finding key or "-". *)
@@ -21,15 +28,97 @@ Fixpoint opt_all {A} (l : list (option A)) : option (list A) :=
   | Some x :: r => option_map (cons x) (opt_all r)
   | None :: _ => None
   end.
+Definition obind {A B} (o : option A) (f : A -> option B) : option B :=
+  match o with Some x => f x | None => None end.
+Notation "x <-- e1 ;; e2" := (obind e1 (fun x => e2)) (at level 61, e1 at next level, right associativity).
+
+Definition is_dash (t : string) : bool := String.eqb t "-".
+(* a separated list; "-" is the empty list *)
+Definition p_list {A} (sep : ascii) (f : string -> option A) (t : string) : option (list A) :=
+  if is_dash t then Some [] else opt_all (map f (split sep t)).
+(* an optional field; "-" is absent *)
+Definition p_opt {A} (f : string -> option A) (t : string) : option (option A) :=
+  if is_dash t then Some None else option_map Some (f t).
+
+Definition p_pair (sep : ascii) (t : string) : option (nat * nat) :=
+  match split sep t with
+  | [a; b] => x <-- nat_of_dec a ;; y <-- nat_of_dec b ;; Some (x, y)
+  | _ => None
+  end.
+Definition p_loc : string -> option loc := p_pair "."%char.
+Definition p_labs : string -> option (list loc) := p_list "+"%char p_loc.
+
+Definition p_rr (t : string) : option dnsrr :=
+  match split ","%char t with
+  | [k; a; b] =>
+      if String.eqb k "a" then n <-- p_labs a ;; off <-- nat_of_dec b ;; Some (RR_A n off)
+      else if String.eqb k "q" then n <-- p_labs a ;; off <-- nat_of_dec b ;; Some (RR_AAAA n off)
+      else if String.eqb k "c" then n <-- p_labs a ;; c <-- p_labs b ;; Some (RR_CNAME n c)
+      else None
+  | _ => None
+  end.
+
+Definition p_arec (t : string) : option (list loc * nat * nat) :=
+  match split ","%char t with
+  | [a; b; c] => n <-- p_labs a ;; off <-- nat_of_dec b ;; k <-- nat_of_dec c ;; Some (n, off, k)
+  | _ => None
+  end.
+
+Definition p_mdns (f : list string) : option mdnsmsg :=
+  match f with
+  | [resp; id; qn; ar; model] =>
+      r <-- bool_of_tok resp ;; i <-- nat_of_dec id ;; q <-- p_list ";"%char p_labs qn ;;
+      a <-- p_list ";"%char p_arec ar ;; m <-- p_opt p_loc model ;;
+      Some {| mq_resp := r; mq_id := i; mq_qnames := q; mq_a := a; mq_model := m |}
+  | _ => None
+  end.
 
 Definition parse_op (t : string) : option pop :=
   match split ":"%char t with
   | [k] => if String.eqb k "q" then Some (PLib LDump) else None
-  | [k; a] =>
-      if String.eqb k "p" then option_map PRecv (bytes_of_tok a)
-      else if String.eqb k "x" then
-        option_map (fun ks => PLib (LPurge ks)) (opt_all (map bytes_of_tok (split ","%char a)))
-      else None
+  | k :: a :: rest =>
+      if String.eqb k "x" then
+        match rest with [] => option_map (fun ks => PLib (LPurge ks)) (p_list ","%char bytes_of_tok a) | _ => None end
+      else if String.eqb k "o" then
+        match rest with [] => option_map (fun x => PLib (LOffline x)) (bytes_of_tok a) | _ => None end
+      else if String.eqb k "u" then
+        match rest with [] => option_map (fun x => PLib (LHunt x)) (bytes_of_tok a) | _ => None end
+      else
+        frame <-- bytes_of_tok a ;;
+        kind <--
+          (if String.eqb k "p" then match rest with [] => Some KPlain | _ => None end
+           else if String.eqb k "d" then
+             match rest with
+             | [ty; cid; name; req; cls; res; yi; lip] =>
+                 ty' <-- N_of_dec ty ;; cid' <-- p_opt p_loc cid ;; name' <-- p_opt p_loc name ;; req' <-- p_opt p_loc req ;;
+                 cls' <-- N_of_dec cls ;; res' <-- N_of_dec res ;; yi' <-- bytes_of_tok yi ;; lip' <-- bytes_of_tok lip ;;
+                 Some (KDhcp {| dm_type := ty'; dm_cid := cid'; dm_name := name'; dm_reqip := req'; dm_cls := cls'; dm_res := res'; dm_yi := yi'; dm_lip := lip' |})
+             | _ => None
+             end
+           else if String.eqb k "r" then
+             match rest with
+             | [sl; pf; rd; sl2; rt] =>
+                 sl' <-- p_opt nat_of_dec sl ;; pf' <-- p_list ","%char p_loc pf ;; rd' <-- p_list ","%char nat_of_dec rd ;;
+                 ds' <-- p_list ";"%char p_labs sl2 ;; rt' <-- p_opt p_loc rt ;;
+                 Some (KRa {| ra_slla := sl'; ra_prefixes := pf'; ra_rdnss := rd'; ra_dnssl := ds'; ra_route := rt' |})
+             | _ => None
+             end
+           else if String.eqb k "n" then
+             match rest with
+             | [qn; rrs] => q <-- p_labs qn ;; r <-- p_list ";"%char p_rr rrs ;; Some (KDns {| dq_name := q; dq_rrs := r |})
+             | _ => None
+             end
+           else if String.eqb k "m" then option_map KMdns (p_mdns rest)
+           else if String.eqb k "l" then option_map KLlmnr (p_mdns rest)
+           else if String.eqb k "b" then
+             match rest with [l] => option_map KNbns (p_opt p_loc l) | _ => None end
+           else if String.eqb k "s" then
+             match rest with
+             | [a1; a2; a3] => x <-- bytes_of_tok a1 ;; y <-- bytes_of_tok a2 ;; z <-- bytes_of_tok a3 ;; Some (KSsdp x y z)
+             | _ => None
+             end
+           else None) ;;
+        Some (PRecv frame kind)
   | _ => None
   end.
 
